@@ -52,13 +52,40 @@ func (pq *plotterQueue) Pop() (*queuedWorkSpace, float32) {
 	return ws, priority
 }
 
+// PopItem returns nil when the queue is empty: Stop / Remove / Delete of a workSpace
+// (from API goroutines) may empty it between the plotter's Empty check and its pop.
 func (pq *plotterQueue) PopItem() *queuedWorkSpace {
 	pq.Lock()
 	defer pq.Unlock()
 
+	if pq.Prque.Empty() {
+		return nil
+	}
 	ws := pq.Prque.PopItem().(*queuedWorkSpace)
 	pq.poppedItem = ws
 	return ws
+}
+
+// Push, Empty and Size take the lock too: Delete replaces the embedded queue.
+func (pq *plotterQueue) Push(data interface{}, priority float32) {
+	pq.Lock()
+	defer pq.Unlock()
+
+	pq.Prque.Push(data, priority)
+}
+
+func (pq *plotterQueue) Empty() bool {
+	pq.Lock()
+	defer pq.Unlock()
+
+	return pq.Prque.Empty()
+}
+
+func (pq *plotterQueue) Size() int {
+	pq.Lock()
+	defer pq.Unlock()
+
+	return pq.Prque.Size()
 }
 
 func (pq *plotterQueue) Delete(sid string) {
@@ -66,7 +93,7 @@ func (pq *plotterQueue) Delete(sid string) {
 	defer pq.Unlock()
 
 	newQueue := prque.New()
-	for !pq.Empty() {
+	for !pq.Prque.Empty() {
 		qws, priority := pq.Prque.Pop()
 		if qws.(*queuedWorkSpace).ws.id.String() == sid {
 			continue
@@ -179,6 +206,9 @@ func (sk *SpaceKeeper) spacePlotter() {
 			}
 
 			qws := sk.queue.PopItem()
+			if qws == nil {
+				break
+			}
 			verifGate("popped", qws.ws.id.String(), qws.wouldMining)
 			killMonitorCh := make(chan struct{}, 1)
 			wg.Add(1)
